@@ -1,4 +1,5 @@
 import BstreamVerif.Lemmas.StepCheckSound
+import BstreamVerif.Lemmas.NewHeights
 import BstreamVerif.Lemmas.CursorLib
 import BstreamVerif.Props.C01
 /-!
@@ -79,5 +80,20 @@ theorem lib_height_never_decreases (cfg : Config) (hnew : cfg.matches .new = tru
     show s.db.libRef.num ≤ R.num
     have : db2.libRef = s.db.libRef := hsb.1
     rw [this] at hup; omega
+
+/-- **which blocks are delivered as New** (forkable that knows its LIB, any handler failure point, no invariant needed):
+    every New event of one `ProcessBlock` delivers a block of the redo segment or of the new longest chain computed
+    for the incoming block — nothing else is ever handed over as New -/
+theorem new_events_deliver_redo_or_chain_blocks (cfg : Config) (s : FState) (b : Blk) (f : Option Nat)
+    (hni : s.includeInit = false ∨ s.lastSent.isSome = true ∨ b.id ≠ s.db.libRef.id) (hlib : s.db.libRef.id ≠ "") :
+    ∀ e ∈ (processBlock cfg s b f).2.1, e.step = .new →
+      ∃ u rd j lc, switchSegments cfg s b (triggers cfg s b) = some (u, rd, j) ∧
+        computeLongestChain cfg (afterLink s b) b = some lc ∧
+        ((∃ x ∈ rd, x.blk = e.blk) ∨ (∃ x ∈ lc, x.blk = e.blk)) := by
+  apply processBlock_new_from cfg s b f
+    (fun blk => ∃ u rd j lc, switchSegments cfg s b (triggers cfg s b) = some (u, rd, j) ∧
+      computeLongestChain cfg (afterLink s b) b = some lc ∧ ((∃ x ∈ rd, x.blk = blk) ∨ (∃ x ∈ lc, x.blk = blk))) hni hlib
+  intro u rd j lc hsw hc _
+  exact ⟨fun e he => ⟨u, rd, j, lc, hsw, hc, Or.inl ⟨e, he, rfl⟩⟩, fun e he => ⟨u, rd, j, lc, hsw, hc, Or.inr ⟨e, he, rfl⟩⟩⟩
 
 end BstreamVerif.Props.C04
